@@ -43,6 +43,10 @@ def call(run, fn, *a, raises=(), **kw):
         raise
     except raises as e:
         return Outcome(exc=e)
+    except (NameError, AttributeError, TypeError, NotImplementedError, RecursionError) as e:
+        # overwhelmingly a construct outside the modelled subset (a name the harness does not
+        # provide, an attribute/keyword a shim lacks): undecided, never a violation
+        raise Undecided("outside the modelled subset: %s: %s" % (type(e).__name__, str(e)[:200]))
     except Exception as e:
         if exception_origin(e) == "repo":
             run.oblige("no-unexpected-exception[%s]" % type(e).__name__, SBool(False), kind="xpost",
@@ -56,7 +60,8 @@ def namespace(modname, **extra):
     ns.update(frontend.base_namespace())
     ns.update({"dataclass": dataclasses.dataclass, "field": dataclasses.field,
                "List": typing.List, "Optional": typing.Optional, "Tuple": typing.Tuple,
-               "Union": typing.Union, "Any": typing.Any})
+               "Union": typing.Union, "Any": typing.Any, "functools": __import__("functools"),
+               "cached_property": __import__("functools").cached_property})
     mod = frontend.module(modname)
     for k, (v, neg, txt) in mod.constants().items():
         if isinstance(v, float):
@@ -81,9 +86,86 @@ def namespace(modname, **extra):
     return ns
 
 
+MUTABLE_CALLS = {"dict", "list", "set", "defaultdict", "OrderedDict", "deque", "Counter", "WeakValueDictionary"}
+
+
+def module_level_binding(modname, name):
+    """('function'|'class', node) | ('constant', value) | ('mutable', kind) | None for a module-level name."""
+    import ast
+    mod = frontend.module(modname)
+    for n in mod.tree.body:
+        if isinstance(n, (ast.FunctionDef, ast.ClassDef)) and n.name == name:
+            return ("function" if isinstance(n, ast.FunctionDef) else "class", n)
+        targets = []
+        if isinstance(n, ast.Assign):
+            targets = [t.id for t in n.targets if isinstance(t, ast.Name)]
+            val = n.value
+        elif isinstance(n, ast.AnnAssign) and isinstance(n.target, ast.Name) and n.value is not None:
+            targets, val = [n.target.id], n.value
+        if name in targets:
+            if isinstance(val, (ast.Dict, ast.List, ast.Set, ast.ListComp, ast.DictComp, ast.SetComp)):
+                return ("mutable", type(val).__name__)
+            if isinstance(val, ast.Call):
+                f = val.func
+                fn = f.id if isinstance(f, ast.Name) else (f.attr if isinstance(f, ast.Attribute) else "")
+                if fn in MUTABLE_CALLS:
+                    return ("mutable", fn)
+                return ("call", fn)
+            if isinstance(val, ast.Constant):
+                return ("constant", val.value)
+            return ("other", None)
+    return None
+
+
+def free_names(modname, qualname):
+    import ast
+    import builtins
+    node = frontend.module(modname).find(qualname)
+    if not isinstance(node, ast.FunctionDef):
+        return set()
+    params = {a.arg for a in node.args.args + node.args.kwonlyargs + node.args.posonlyargs}
+    if node.args.vararg:
+        params.add(node.args.vararg.arg)
+    if node.args.kwarg:
+        params.add(node.args.kwarg.arg)
+    stored, loaded = set(), set()
+    for n in (x for st in node.body for x in ast.walk(st)):
+        if isinstance(n, ast.Name):
+            (stored if isinstance(n.ctx, (ast.Store, ast.Del)) else loaded).add(n.id)
+        elif isinstance(n, (ast.Import, ast.ImportFrom)):
+            for a in n.names:
+                stored.add((a.asname or a.name).split(".")[0])
+        elif isinstance(n, ast.FunctionDef):
+            stored.add(n.name)
+            for a in n.args.args:
+                stored.add(a.arg)
+        elif isinstance(n, ast.arg):
+            stored.add(n.arg)
+    return {x for x in loaded - stored - params if not hasattr(builtins, x)}
+
+
 def define(ctx, ns, modname, qualname, loop_specs=None, extra=None, label=None):
     if extra:
         ns.update(extra)
+    # module-level helpers and containers the function refers to but the harness did not provide:
+    # helper functions are extracted too (reported), mutable containers start empty (their use is a
+    # frame matter: see purity.mutable_globals)
+    try:
+        for nm in sorted(free_names(modname, qualname)):
+            if nm in ns or nm == qualname.split(".")[-1]:
+                continue
+            b = module_level_binding(modname, nm)
+            if b is None:
+                continue
+            if b[0] in ("function", "class"):
+                define(ctx, ns, modname, nm)
+            elif b[0] == "mutable":
+                ns[nm] = {"Dict": dict, "DictComp": dict, "dict": dict, "defaultdict": dict, "OrderedDict": dict,
+                          "List": list, "ListComp": list, "list": list, "deque": list,
+                          "Set": set, "SetComp": set, "set": set}.get(b[1], dict)()
+                ctx.assume_note("module-level mutable container %s.%s starts empty in the symbolic run" % (modname, nm))
+    except Undecided:
+        pass
     obj, info = frontend.compile_into(ns, modname, qualname, loop_specs=loop_specs, label=label)
     ctx.add_function(info)
     return obj
